@@ -816,6 +816,27 @@ def start_action(logger=None, action_type="", _serializers=None, **fields):
         return action
 
 
+def _start_action_with_fields(action_type, fields):
+    """
+    Like C{start_action(action_type=action_type, **fields)}, except that the
+    field names cannot collide with L{start_action}'s own parameters
+    (C{logger}, C{action_type}, C{_serializers}).
+
+    @param action_type: The type of this action.
+
+    @param fields: C{dict} of fields to add to the start message.
+
+    @return: A new L{Action}.
+    """
+    parent = current_action()
+    if parent is None:
+        action = Action(None, str(uuid4()), TaskLevel(level=[]), action_type)
+    else:
+        action = parent.child(None, action_type)
+    action._start(fields)
+    return action
+
+
 def startTask(logger=None, action_type="", _serializers=None, **fields):
     """
     Like L{action}, but creates a new top-level L{Action} with no parent.
@@ -933,7 +954,7 @@ def log_call(
         if include_args is not None:
             callargs = {k: callargs[k] for k in include_args}
 
-        with start_action(action_type=action_type, **callargs) as ctx:
+        with _start_action_with_fields(action_type, callargs) as ctx:
             result = wrapped_function(*args, **kwargs)
             if include_result:
                 ctx.add_success_fields(result=result)
